@@ -20,14 +20,16 @@
 
   3. `Env.Positive` (hypothesis of `canon_den_positive`, `chain_expand_den_positive`) is satisfied by NO causal model
      with a non-constant variable (`fscmEnv_not_positive`, `envX_not_positive`): it demands positive probability for
-     `X_{x=0} = 1`.  The single-world positivity `Env.PositiveSW` is the satisfiable replacement
-     (Y0/Lemmas/SemPosSW.lean: `canon_den_positiveSW`).
+     `X_{x=0} = 1`.  The single-world positivity `Env.PositiveSW` (Y0/Lemmas/SemPosSW.lean) is the satisfiable
+     replacement: `canon_den_positiveSW`; every compatible semi-Markovian model has it (`scm_envX_positiveSW`), whence
+     `canon_den_scm_positive` (C10 in `M.env G` with no hypothesis on denominators).
 
   4. Non-vacuity: a concrete 3-variable functional SCM with a confounder and a concrete semi-Markovian bow model
      satisfy all hypotheses.
 -/
 import Y0.Lemmas.FscmEnvLaws
 import Y0.Lemmas.ScmEnvXAgree
+import Y0.Lemmas.SemPosSW
 import Y0.Props.C10
 import Y0.Props.C13
 
@@ -274,6 +276,37 @@ theorem fscmEnv_not_positive {M : Fscm.Model} {card : Name → Nat} (x : Name) (
       rw [this]; rfl
   rw [hz] at this
   exact lt_irrefl _ this
+
+/-- `Env.Positive` fails in the total environment of a semi-Markovian model too -/
+theorem envX_not_positive {M : Scm} {G : MG Name} (hM : M.Compatible G) (hG : G.WF) (hr : G.Ranked) (x : Name)
+    (hx : x ∈ G.nodes) (hc : 1 < M.card x) : ¬ (M.envX G).Positive :=
+  Scm.envX_not_positive ⟨hM, hG, hr⟩ x hx hc
+
+/-- the satisfiable replacement: single-world positivity (Y0/Lemmas/SemPosSW.lean) follows from `Env.Positive` ... -/
+theorem positiveSW_of_positive {env : Env} (h : env.Positive) (V : List Name) : env.PositiveSW V := h.positiveSW V
+
+/-- ... and holds in the total environment of EVERY compatible semi-Markovian model, over the nodes of the graph -/
+theorem scm_envX_positiveSW {M : Scm} {G : MG Name} (hM : M.Compatible G) (hG : G.WF) (hr : G.Ranked) :
+    (M.envX G).PositiveSW G.nodes := Scm.envX_positiveSW ⟨hM, hG, hr⟩
+
+/-- **C10 under single-world positivity** (generalises `canon_den_positive`, whose hypothesis no causal model meets):
+the non-vanishing hypothesis is discharged syntactically (`zfd`: no `Zero()` inside a denominator) -/
+theorem canon_den_positiveSW {env : Env} {σ' : Val} {V : List Name} (hF : ProbFamily env) (hP : env.PositiveSW V)
+    {o : List Var} {e e' : Expr} (hws : WellScoped e = true) (hzfd : e.zfd = true)
+    (hV : ∀ v ∈ e.eventVars, v.name ∈ V) (h : canon o e = .ok e')
+    {σ : Val} (hσ : InRange env σ) (hσ' : InRange env σ') : den env σ' e' σ = den env σ' e σ :=
+  canon_den hF hws (denNZ_of_positiveSW hF hP hσ' e hws hzfd hV) h hσ
+
+/-- **C10 for the concrete environment of a semi-Markovian model, no hypothesis on denominators left**: compatible
+models are positive, so for a well-scoped single-world expression over the nodes with no `Zero()` inside a denominator,
+canonicalisation preserves the denotation in `M.env G` -/
+theorem canon_den_scm_positive {M : Scm} {G : MG Name} {σ' : Val} (hM : M.Compatible G) (hG : G.WF) (hr : G.Ranked)
+    {o : List Var} {e e' : Expr} (hws : WellScoped e = true) (hsw : e.swOK G = true) (hzfd : e.zfd = true)
+    (h : canon o e = .ok e') (hsw' : e'.swOK G = true) {σ : Val} (hσ : InRange (M.env G) σ)
+    (hσ' : InRange (M.env G) σ') : den (M.env G) σ' e' σ = den (M.env G) σ' e σ := by
+  have hC : XCtx M G := ⟨hM, hG, hr⟩
+  rw [← den_envX_eq_env hC hσ' e' hsw' σ hσ, ← den_envX_eq_env hC hσ' e hsw σ hσ]
+  exact canon_den_positiveSW (envX_probFamily hC) (Scm.envX_positiveSW hC) hws hzfd (eventVars_of_swOK e hsw) h hσ hσ'
 
 /-! ## 4. non-vacuity: a functional SCM with a confounder -/
 
